@@ -675,6 +675,10 @@ fn run_producer(sh: &Shared, tid: usize, first: TxH, first_id: u32) {
         o
       }
       POp::Clone => {
+        // cloning a handle that was itself closed has no specified meaning: not generated
+        if slot.closed {
+          continue;
+        }
         let new_id = sh.next_handle.fetch_add(1, Ordering::SeqCst);
         let mut ev = Ev::new(t16, id, Side::Tx, Form::Clone, is_async);
         ev.aux = new_id as u64;
@@ -985,10 +989,12 @@ fn do_recv(log: &Log, t16: u16, slot: &mut RxSlot, op: COp, rng: &mut Rng, cance
           Err(TryRecvError::Disconnected) => R::Out(Out::Disconnected),
         }
       }
-      (COp::StreamNext, RxH::A(h)) => match drive!(h.next()) {
-        Some(Some(v)) => R::Vals(vec![v]),
-        Some(None) => R::Out(Out::StreamEnd),
-        None => R::Out(Out::Cancelled),
+      // A `Stream` poll that returned Pending leaves the *receiver* registered; abandoning
+      // the wrapper future is not a cancellation of a library future (nothing is dropped), so
+      // the harness always follows a stream poll through to Ready.
+      (COp::StreamNext, RxH::A(h)) => match block_on(h.next()) {
+        Some(v) => R::Vals(vec![v]),
+        None => R::Out(Out::StreamEnd),
       },
       _ => R::Out(Out::Empty),
     }
@@ -1066,6 +1072,9 @@ fn run_consumer(sh: &Shared, tid: usize, first: RxH, first_id: u32, drainer: boo
     match op {
       COp::Clone => {
         let slot = &slots[si];
+        if slot.closed {
+          continue;
+        }
         let new_id = sh.next_handle.fetch_add(1, Ordering::SeqCst);
         let mut ev = Ev::new(t16, slot.id, Side::Rx, Form::Clone, is_async);
         ev.aux = new_id as u64;
